@@ -81,7 +81,7 @@ def adaptive_tdvp(fun):
             # prevent bug. save "some" memory.
             del mps_half1, mps
 
-            p = (0.75 * config.adaptive_rtol / (dis/mps_half2.mp_norm + 1e-30)) ** (1./3)
+            p = (0.75 * config.adaptive_rtol / (dis/mps_half2.norm + 1e-30)) ** (1./3)
             logger.debug(f"distance: {dis}, enlarge p parameter: {p}")
             if p < p_min:
                 p = p_min
@@ -843,7 +843,7 @@ class Mps(MatrixProduct):
                     [new_mps1, scaled_termlist[-1]]
                 )
                 dis = new_mps1.distance(new_mps2)
-                p = (config.adaptive_rtol / (dis/new_mps2.mp_norm + 1e-30)) ** (1/order)
+                p = (config.adaptive_rtol / (dis/new_mps2.norm + 1e-30)) ** (1/order)
                 logger.debug(f"RK45 error distance: {dis}, enlarge p parameter: {p}")
 
                 if xp.allclose(dt, evolve_dt):
@@ -1832,7 +1832,7 @@ class Mps(MatrixProduct):
 
     
     def add(self, other):
-        if not np.allclose(self.coeff, other.coeff):
+        if not np.allclose(self.coeff, other.coeff, rtol=1e-14, atol=0):
             self.scale(self.coeff, inplace=True)
             other.scale(other.coeff, inplace=True)
             self.coeff = 1
@@ -1840,12 +1840,14 @@ class Mps(MatrixProduct):
         return super().add(other)
     
     def distance(self, other) -> float:
-        if not np.allclose(self.coeff, other.coeff):
+        if not np.allclose(self.coeff, other.coeff, rtol=1e-14, atol=0):
             self.scale(self.coeff, inplace=True)
             other.scale(other.coeff, inplace=True)
             self.coeff = 1
             other.coeff = 1
-        return super().distance(other)
+            return super().distance(other)
+        # the common prefactor scales the distance
+        return float(np.linalg.norm(self.coeff)) * super().distance(other)
 
 
 def projector(
